@@ -225,7 +225,7 @@ def find_fn(src, path, m=None):
     for k, seg in enumerate(path):
         found = None
         for it in _block_items(src, m, start, end):
-            if seg.startswith("impl ") or seg.startswith("mod "):
+            if re.match(r"(impl|mod)\b", seg) and not re.match(r"[A-Za-z_][A-Za-z0-9_]*$", seg):
                 if it[0] in ("impl", "mod") and it[1] == " ".join(seg.split()):
                     found = it
                     break
